@@ -1,0 +1,5 @@
+//go:build !verif
+
+package goose
+
+func verifHook(point string, worker int, pkgPath string) {}
